@@ -112,6 +112,88 @@ def value_class_parameters(v, rng, base, n_rounds):
     return n_traces
 
 
+def anonymous_senders(v, rng, base, n_rounds):
+    """Handlers declared on objects WITHOUT id, next to anonymous look-alikes (component Btn1 next to Btn, QPushButton next to
+    PushButton1): the handler must be connected to the object it is written in, identified here by its position in the tree."""
+    from .. import doccheck, uiparse
+    n = 0
+    for k in range(n_rounds):
+        d = os.path.join(base, "anon%d" % k)
+        os.makedirs(d, exist_ok=True)
+        stem = rng.choice(("Btn", "PushButton", "Go"))
+        alikes = rng.sample([stem + x for x in ("", "1", "2", "11")], rng.randint(2, 3)) + ["QPushButton"]
+        for a in alikes:
+            if a != "QPushButton":
+                with open(os.path.join(d, a + ".qml"), "w") as f:
+                    f.write("import qmluic.QtWidgets\nQPushButton {}\n")
+        seq = [rng.choice(alikes) for _ in range(rng.randint(3, 7))]
+        lines = ["import qmluic.QtWidgets", "QWidget {", "    QVBoxLayout {"]
+        tags = []
+        for i, c in enumerate(seq):
+            if rng.random() < 0.6:
+                tags.append("h%d" % i)
+                lines.append("        %s { onClicked: console.log(\"h%d\") }" % (c, i))
+            else:
+                tags.append(None)
+                lines.append("        %s {}" % c)
+        lines += ["    }", "}", ""]
+        qml = "\n".join(lines)
+        path = os.path.join(d, "Main.qml")
+        with open(path, "w") as f:
+            f.write(qml)
+        out = common.translate([{"id": "a%d" % k, "source": "", "path": path, "type_name": "Main", "modes": ["generate"], "want": ["ui", "header"]}], tag="c13a")
+        rs = out.results.get("a%d" % k)
+        rp = {"qml": qml, "components": alikes}
+        if not rs or rs[0].get("panic") or not doccheck.accepted(rs[0]):
+            v.inconc("anonymous-sender document not translated: %r" % (rs[0].get("diagnostics") if rs else None))
+            continue
+        r = rs[0]
+        rp["ui"], rp["header"] = r["ui"], r["header"]
+        root = uiparse.parse(r["ui"])
+        buttons = [nm for (t, nm, c, node) in uiparse.named_objects(root) if t == "widget" and c in alikes]
+        if len(buttons) != len(seq):
+            v.inconc("anonymous-sender document: %d buttons in the form, %d in the source" % (len(buttons), len(seq)))
+            continue
+        if len(set(buttons)) != len(buttons):
+            dup = sorted({x for x in buttons if buttons.count(x) > 1})
+            v.violation("sender-ambiguous", "two objects carry the name %r: the handler's connect(ui_->%s, ...) cannot denote the declaring object" % (dup, dup[0]), rp)
+            continue
+        L = ["#include \"qtmodel.h\"", "#include <QtDebug>", "#include \"ui_main.h\"", "#include \"uisupport_main.h\"", "int main() {", "    QWidget root;", "    Ui::Main ui;",
+             "    ui.setupUi(&root);", "    UiSupport::Main sup(&root, &ui);", "    qvm::tag() = \"setup\";", "    sup.setup();"]
+        for i, nm in enumerate(buttons):
+            L.append("    qvm::tag() = \"p%d\"; qvm::put(\"\\\"ev\\\":\\\"begin\\\"\"); ui.%s->clicked(false); qvm::put(\"\\\"ev\\\":\\\"end\\\"\");" % (i, nm))
+        L += ["    return 0;", "}"]
+        try:
+            cxxrun.write_case(d, r["ui"], r["header"], "\n".join(L) + "\n", type_name="Main")
+        except cxxmodel.UicError as e:
+            v.inconc("mini-uic: %s" % e)
+            continue
+        ok, err = cxxrun.compile_case(d)
+        if not ok:
+            if ok is None:
+                v.inconc("compiler timeout")
+            else:
+                v.violation("does-not-compile", "support header with handlers on anonymous objects does not compile: %s" % err[-400:], dict(rp, compiler=err[-2000:]))
+            continue
+        status, events, serr = cxxrun.run_case(d)
+        if status != 0:
+            v.violation("abnormal-exit-%s" % status, "driver for anonymous senders ended with %r" % status, rp)
+            continue
+        logs = {}
+        for e in events:
+            if e.get("ev") == "log":
+                logs.setdefault(e.get("tag"), []).append(e["items"])
+        for i, tag in enumerate(tags):
+            got = logs.get("p%d" % i, [])
+            want = [[tag]] if tag else []
+            n += 1
+            if got != want:
+                v.violation("trace:wrong-sender", "clicking the %s at position %d (named %s) logs %r, the source prescribes %r"
+                            % (seq[i], i, buttons[i], got, want), rp)
+                break
+    return n
+
+
 def run(tier, seed, replay=None):
     v = common.Verdict("C13", tier, seed)
     rng = common.rng_for(seed, "C13", tier)
@@ -275,6 +357,7 @@ def run(tier, seed, replay=None):
         else:
             n_neg += 1
     n_vc = 0 if replay else value_class_parameters(v, rng, base, 2 if tier == "quick" else 12)
+    n_anon = 0 if replay else anonymous_senders(v, rng, base, 4 if tier == "quick" else 40)
     feats = sorted(set().union(*[d.features for d in docs])) if docs else []
     v.assumptions = ["reference interpreter in statement mode (qv/gen_expr.py) gives the prescribed effect trace",
                      "API model: direct connections; every setter/slot/console call appends to one event log",
@@ -284,7 +367,7 @@ def run(tier, seed, replay=None):
         rule="handlers in every form (expression, block, function, arrow; 0..n leading parameters) on Qt and synthetic signals "
              "(default-argument families, up to 3 arguments, inherited signals); bodies are random void programs; each defined "
              "(state, arguments) tuple is emitted and its effect trace compared; distinct = distinct handler text with >= 1 effect",
-        samples=samples, documents=len(work), handlers=sum(len(w[1].handlers) for w in work), traces_compared=n_traces, value_class_parameter_traces=n_vc,
+        samples=samples, documents=len(work), handlers=sum(len(w[1].handlers) for w in work), traces_compared=n_traces, value_class_parameter_traces=n_vc, anonymous_sender_clicks=n_anon,
         effect_events_compared=n_events, connections_checked=n_connect_checked, undefined_runs_skipped=n_undefined,
         handlers_rejected_by_qmluic=len(rejected), rejection_reasons=rej_msgs, bad_handlers_rejected=n_neg,
         shape_features_hit=len(feats), shape_features=feats, floor=50,
